@@ -308,7 +308,7 @@ pub(crate) fn run(seed: u64, n: u64, out: &mut Out) {
                     if problems.is_empty() {
                         let got = snapshot(&p.storage, &p.peers, &p.pool, &numbers);
                         if got != ab && got != ba {
-                            problems.push(format!("[C17-not-serializable] {} paused before its write {} of {}, {} run meanwhile ({}): the outcome is neither that of {};{} nor of {};{} || outcome: {} || {};{}: {} || {};{}: {}", a.name(), k, n_writes[ia], b.name(), if b_while_paused { "it finished while the other was paused" } else { "it waited for the other" }, a.name(), b.name(), b.name(), a.name(), got, a.name(), b.name(), ab, b.name(), a.name(), ba));
+                            problems.push(format!("[C17-not-serializable]{} {} paused before its write {} of {}, {} run meanwhile ({}): the outcome is neither that of {};{} nor of {};{} || outcome: {} || {};{}: {} || {};{}: {}", if a.name() == "set_scripts" || b.name() == "set_scripts" { "[C09-set-scripts-interleaved]" } else { "" }, a.name(), k, n_writes[ia], b.name(), if b_while_paused { "it finished while the other was paused" } else { "it waited for the other" }, a.name(), b.name(), b.name(), a.name(), got, a.name(), b.name(), ab, b.name(), a.name(), ba));
                         }
                     }
                     let oracle = if problems.is_empty() { Ok(()) } else { Err(problems.join(" || ")) };
